@@ -382,7 +382,12 @@ static int vf_op(long leng)
 static int vf_arg_less(long leng)
 {
 	/* k ranges over [prefix, yyleng]; simplest first: give back one character, two, ... */
-	int lo = vf_cur_more_prefix, n = (int)leng - lo + 1, c;
+#ifdef VF_LESS_BELOW_PREFIX
+	int lo = 0, n, c;            /* also give back part of the text kept by yymore() */
+#else
+	int lo = vf_cur_more_prefix, n, c;
+#endif
+	n = (int)leng - lo + 1;
 	if (n < 1) return (int)leng;
 	c = vf_choose(n, VF_K_ARG);
 	return (int)leng - 1 - c >= lo ? (int)leng - 1 - c : (int)leng;   /* last alternative: yyless(yyleng) */
